@@ -18,7 +18,20 @@ RULE = ("C 'scripted': the real Solver.solve is run with a scripted backend clas
         "search: Solver.solve(backend='z3') and Solver.solve(backend=<SugarLikeBackend subclass whose solver call returns a "
         "protocol-conformant deduction reply>) vs the facts computed by enumerating the declared domains under the ordinary "
         "meaning of the program as written (all / some / no keys, bool and int keys); the Coq specification common_facts is "
-        "cross-checked against the same enumeration.  Non-trivial = distinct (kind, program, keys, policy).")
+        "cross-checked against the same enumeration.  "
+        "Scenarios (harness/c02gen.py; kinds sc-*): whole histories of one Solver written as data -- variables declared one by "
+        "one or through bool_array / int_array (1-D, 2-D); ensure and add_answer_key fed through lists, tuples, cspuz arrays, "
+        "generators, map, zip, iter, reversed, chain, filter, generators nested in lists / tuples / generators, lazily built "
+        "constraints, one call per element; integer domains far from zero (every value outside CPython's small-int cache, up to "
+        "10^12) and wide domains (up to 2^34 values, restricted by a posted membership constraint so that enumeration of the "
+        "candidates is exact), all integers created at run time; 1-4 solve() calls on the same Solver with further constraints, "
+        "further answer keys or overwritten sol fields in between; backend z3 given as class / by name / through "
+        "config.default_backend, a conformant deduction backend, or a live scripted backend.  C 'sc-forms': what the Solver holds "
+        "(is_answer_key, multiset of constraint trees) vs a fresh Solver given the same things as plain lists; solve() must leave "
+        "both unchanged.  C 'sc-solve-z3' / 'sc-scripted': every solve() of a history vs the extracted solve / solve_scripted on "
+        "the program and keys declared so far.  search: every solve() of every history vs enumeration (verdict and every answer "
+        "key's sol, type-strict); failing histories are shrunk (steps, forms, keys, constraints) and replayable.  "
+        "Non-trivial = distinct (kind, program, keys, policy) / (kind, scenario, step).")
 TRUSTED = [
     "as C01: z3 behind Section hypotheses oracle_sound / oracle_complete; z3py overload semantics; eval = ordinary meaning",
     "the native route's reply parsing (SugarLikeBackend.solve_irrefutably) belongs to C03; here a native reply is an abstract, already parsed, conformant answer",
@@ -28,6 +41,9 @@ ASSUMPTIONS = [
     "constraints are well-typed and refer to the Solver's own variables (as C01)",
     "the backend's solve() writes a value of the variable's own type into every sol field (z3: is_true / as_long)",
     "sol fields of variables that are not answer keys are outside the property (they keep whatever the last backend call left)",
+    "sol fields after a solve() that returned False are outside the property (the loop route leaves the previous values, the "
+    "native route clears them); the harness only counts which of the two happened (sc-unsat-sol:*)",
+    "integer values stay below 2^62 in absolute value (the extracted runner uses OCaml native ints for I/O)",
 ]
 
 ERR = {1: "IndexError", 2: "KeyError", 3: "AssertionError", 4: "TypeError", 5: "ValueError",
